@@ -14,17 +14,17 @@ type lcLine struct {
 }
 
 type lcStep struct {
-	Op    string   `json:"op"`
-	A     int      `json:"a"`
-	D     []int    `json:"d"`
-	Ok    bool     `json:"ok"`
-	Ret   []int    `json:"ret"`
-	Bases   []int `json:"bases"`
-	Touched []int `json:"touched"`
+	Op      string `json:"op"`
+	A       int    `json:"a"`
+	D       []int  `json:"d"`
+	Ok      bool   `json:"ok"`
+	Ret     []int  `json:"ret"`
+	Bases   []int  `json:"bases"`
+	Touched []int  `json:"touched"`
 }
 
 type lcHist struct {
-	Geom []int    `json:"geom"`
+	Geom  []int    `json:"geom"`
 	Hist  []lcStep `json:"hist"`
 	Final []lcLine `json:"final"`
 }
